@@ -60,7 +60,7 @@ var trUnits = []*trUnit{
 		agree: map[string]string{"ComputePrices": "Process", "Valuate": "Process", "Filter": "Process", "CloseAccounts": "Process", "Query.Into": "Query",
 			"Sort": "JPrinter2", "Print": "JPrinter2"}},
 	{pkg: "lib/journal/beancount", mod: "Beancount", funcs: []string{"stripNonAlphanum", "writePosting", "writeTrx", "Transcode"}},
-	{pkg: "lib/reports/balance", mod: "Report", funcs: []string{"NewReport", "Report.Insert", "Report.SortAlpha", "Report.SortWeighted", "Report.Totals"}},
+	{pkg: "lib/reports/balance", mod: "Report", funcs: []string{"NewReport", "Report.Insert", "Report.SortAlpha", "Report.SortWeighted", "Report.Totals", "Renderer.render"}},
 }
 
 func (u *trUnit) agreeMod(fn string) string {
